@@ -77,6 +77,9 @@ pub fn vcf_text(cs: &CallSet) -> Vec<u8> {
             // a position beyond the machine word: refused ("invalid position")
             Some("bigpos") => { s.push_str(&format!("{}\t18446744073709551616\t.\t{}\t{}\t.\t.\t{}\t{}", r.contig, ref_allele(i), alt, info, fmt)); for _ in 0..cs.cols.len() { s.push_str("\t0/1"); } s.push('\n'); continue; }
             Some("trunc") => { s.push_str(&format!("{}\t{}\t.\tA\n", r.contig, r.pos)); continue; }
+            // an empty line in the body (a stray line end from a concatenation or an editor): not a record — refused, reported at the
+            // site of the record before it (the request names that site)
+            Some("blank") => { s.push('\n'); continue; }
             // a record that is complete but for ONE site-level column the VCF grammar refuses (ID / QUAL / FILTER / INFO): the reader
             // reports the error at this site; the sample columns that follow are well-formed and differ from the previous record's
             Some(k @ ("dupinfo" | "badinfo" | "badqual" | "dupid" | "dupfilter")) => {
